@@ -230,6 +230,18 @@ func c08Strings(decoder string, thorough bool) [][]byte {
 			add(append([]byte(hdr[:l]), s...))
 		}
 	}
+	// the long size forms, complete and truncated at every length, bare and behind the header
+	stringsOver([]byte{'~', '?', '@', 'A'}, 8, func(t []byte) {
+		if len(t) == 0 || t[0] != '~' {
+			return
+		}
+		b := t
+		if decoder == "sparse6" {
+			b = append([]byte{':'}, t...)
+		}
+		add(b)
+		add(append([]byte(hdr), b...))
+	})
 	// single-edit closure of valid encodings
 	var valid []string
 	for n := 0; n <= 4; n++ {
